@@ -61,6 +61,9 @@ def main(ctx):
     if not proofs_ok and not ctx.violations:
         bad = [o[0] for o in ctx.obligations if not o[1]]
         ctx.violation("proof obligations not discharged: %s" % ", ".join(bad), "theorems: %s\n" % ", ".join(bad), found_input=False)
+    ctx.floor("configurations_run", n_cfg)
+    ctx.floor("configurations_on_the_external_backend", n_ext)
+    ctx.floor("query_sequences_on_one_object", n_seq)
     ctx.cov.update({
         "evaluations": n_cfg + n_seq,
         "distinct_nontrivial": len(distinct),
